@@ -77,6 +77,9 @@ type C13Second struct {
 	Client  int  `json:"client"`
 	Default bool `json:"default,omitempty"`
 	Server  int  `json:"server"`
+	// Reuse: the Option value that configures this client's set has already been applied once, in another Dial of
+	// the same process, behind the first client's set (options are values: applying one must not change it)
+	Reuse bool `json:"reuse,omitempty"`
 }
 
 func genC13(g *simrt.Tape, tier string) any {
@@ -90,7 +93,7 @@ func genC13(g *simrt.Tape, tier string) any {
 		sc.Client = 31
 	}
 	if g.Draw(4) == 0 {
-		sc.Second = &C13Second{Client: 1 + g.Draw(31), Server: 1 + g.Draw(31), Default: g.Draw(2) == 0}
+		sc.Second = &C13Second{Client: 1 + g.Draw(31), Server: 1 + g.Draw(31), Default: g.Draw(2) == 0, Reuse: g.Draw(2) == 0}
 		if sc.Second.Default {
 			sc.Second.Client = 31
 		}
@@ -157,7 +160,7 @@ func c13Grid(tier string) []*C13Sc {
 			out = append(out, &C13Sc{Client: 31, Default: true, Server: srv, Beh: behConformant, Enforce: -1, FollowUp: true,
 				Second: &C13Second{Client: 31, Default: true, Server: s2}})
 			out = append(out, &C13Sc{Client: 31, Default: true, Server: srv, Beh: behForeign, Enforce: -1, FollowUp: true,
-				Second: &C13Second{Client: 1 + (srv*7)%31, Server: s2}})
+				Second: &C13Second{Client: 1 + (srv*7)%31, Server: s2, Reuse: srv%2 == 0}})
 		}
 	}
 	return out
@@ -549,7 +552,13 @@ func (c *c13Second) run(x *X, sc *C13Sc) {
 	}
 	o := []kmipclient.Option{kmipclient.WithDialerUnsafe(w2.dialer)}
 	if !sc.Second.Default {
-		o = append(o, kmipclient.WithKmipVersions(permute(cset, sc.Order+3)...))
+		own := kmipclient.WithKmipVersions(permute(cset, sc.Order+3)...)
+		if sc.Second.Reuse {
+			if d, err := kmipclient.DialContext(context.Background(), "sim2", kmipclient.WithDialerUnsafe(w2.dialer), kmipclient.WithKmipVersions(setOf(sc.Client)...), own); err == nil && d != nil {
+				_ = d.Close()
+			}
+		}
+		o = append(o, own)
 	}
 	c2, err := kmipclient.DialContext(context.Background(), "sim2", o...)
 	c.dialErr = err
